@@ -14,12 +14,12 @@ CLAUSE = {"scheme": "same-scheme", "user": "same-decoded-userinfo", "password": 
           "fragment": "same-decoded-fragment"}
 
 
-def check_url(col, url, quoted, strip_fragment, default_protocol="https"):
+def check_url(col, url, quoted, strip_fragment, default_protocol="https", hostless=False):
     try:
         din = R.denote(R.clean(url, default_protocol), strip_fragment)
     except R.Unparseable:
         return False
-    if din["host"] is None:
+    if din["host"] is None and not hostless:
         return False
     inp = {"url": url, "quoted": quoted, "strip_fragment": strip_fragment, "default_protocol": default_protocol}
     r = call(canonicalize_url, url, quoted=quoted, strip_fragment=strip_fragment, default_protocol=default_protocol)
@@ -86,13 +86,16 @@ def skeleton_urls():
     return out
 
 
+HOSTLESS = ["http://u@/a", "http://:8080/a", "http://u:p@:8080/a?x=1#f", "u@/a", "https://u%40:p%3A@/", "http://:80/a/../b", "http:///a", "http://", "//:81/x"]
+
+
 def main():
     a = args("C01")
     col = Collector("C01", a.tier, a.seed)
     if a.replay:
         import json
         inp = json.load(open(a.replay))["input"]
-        check_url(col, inp["url"], inp["quoted"], inp["strip_fragment"], inp.get("default_protocol", "https"))
+        check_url(col, inp["url"], inp["quoted"], inp["strip_fragment"], inp.get("default_protocol", "https"), hostless=True)
         col.rule = "replay"
         col.dump(a.out)
         return
@@ -111,6 +114,12 @@ def main():
                 for dp in ("https", "http"):
                     if check_url(col, url, quoted, sf, dp):
                         col.nontriv(("skel", url))
+    # a URL may carry userinfo or a port and no host: still a URL string that parses
+    for url in HOSTLESS:
+        for quoted in (False, True):
+            for sf in (False, True):
+                if check_url(col, url, quoted, sf, "https", hostless=True):
+                    col.nontriv(("hostless", url))
     rnd = random.Random(a.seed)
     for i in range(2000 if a.tier == "quick" else 40000):
         parts = {}
